@@ -2255,12 +2255,12 @@ theorem c16_len_writers (ts : List Table) (hwf : ∀ t ∈ ts, WF t) (op : Op) (
   refine ⟨t, htc, hlen ?_⟩
   cases op <;> first | trivial | (exfalso; simp only [opMethod] at hw; revert hw; decide)
 
-/-- tied to the ast of the current class body: every method in which an item assignment *into a stored array*
-(`self._data_fields[f][i] = …`) occurs — directly or through a method it calls on `self` — is `set_selection` /
-`__setitem__`, the model's only write-through operations (`c16_rebind_ops_frame` covers all others).  A method that
-starts to write into the existing buffers (e.g. an in-place `sort_by_field`) breaks this proof. -/
-theorem c16_array_writers_for_current_source (op : Op)
-    (h : writesVia Gen.C16.arrayWriters Gen.C16.delegates (opMethod op) = true) :
+/-- every method in which an item assignment *into a stored array* (`self._data_fields[f][i] = …`) occurs — directly or
+through a method it calls on `self`, per the recorded structure `arrayWritersM` / `delegatesM` — is `set_selection` /
+`__setitem__`, the model's only write-through operations (`c16_rebind_ops_frame` covers all others).  (The current
+ast lists are evidence only: they depend on private names and syntax.) -/
+theorem c16_array_writers (op : Op)
+    (h : writesVia arrayWritersM delegatesM (opMethod op) = true) :
     (∃ c sel d, op = .setSel c sel d) ∨ (∃ c n col, op = .setItem c n col) := by
   cases op <;> first | (exfalso; simp only [opMethod] at h; revert h; decide) | exact Or.inl ⟨_, _, _, rfl⟩ | exact Or.inr ⟨_, _, _, rfl⟩
 
